@@ -207,6 +207,23 @@ def cases_for(tier):
             for t in (('dict', [(('str', 'key'), cm), (('str', 'other'), ('int', 1))]), ('list', [cm, ('int', 0)]),
                       ('call', 'make', [cm], [('kw', cm)]), ('dict', [(('commented', ('tuple', [('int', 1), ('tuple', [('int', 2)])]), 'key note'), cm)])):
                 cases.append(('commented', t, dict(depth=d, width=w)))
+    # the sole positional argument of a call: exactly list/dict/tuple are hugged (no level consumed);
+    # subclass instances, sets, calls and anything with a keyword beside it are not
+    deep3 = ('list', [('int', 2), ('list', [('int', 3), ('list', [('int', 4)])])])
+    inners = [('list', [('int', 1), deep3]), ('tuple', [('int', 1), deep3]), ('dict', [(('str', 'k'), deep3)]),
+              ('set', [('int', 1), ('tuple', [('int', 2), ('tuple', [('int', 3)])])]),
+              ('frozenset', [('tuple', [('int', 2), ('tuple', [('int', 3)])])])]
+    for inner in inners:
+        wraps = [inner, ('sub', 'plain', inner), ('sub', 'reprov', inner), ('commented', inner, 'why'),
+                 ('commented', ('sub', 'plain', inner), 'why'), ('call', 'inner', [inner], [])]
+        if inner[0] != 'frozenset':        # pretty_frozenset takes no trailing comment (C09-trailing-dropped)
+            wraps.append(('trailing', inner, 'tail'))
+        for a in wraps:
+            for t in (('call', 'make', [a], []), ('list', [('call', 'make', [a], [])]),
+                      ('call', 'make', [a], [('kw', ('int', 1))]), ('call', 'make', [a, ('int', 0)], []),
+                      ('call', 'outer', [('call', 'make', [a], [])], [])):
+                for d in range(0, 7):
+                    cases.append(('sole-arg', t, dict(depth=d, width=r.choice([10, 79]))))
     # nested singletons of every leaf, every depth
     for leaf in valgen.LEAVES:
         t = leaf
@@ -222,7 +239,9 @@ def cases_for(tier):
 RULE = ('seeded random value trees up to 30 nodes (half with subclass instances and pretty_call objects) x depth in '
         '{0,1,2,3,height-1,height,height+1,height+2} x widths; towers of singleton containers (list, tuple, dict value, '
         'dict key, call argument, frozenset) over every leaf of the adversarial alphabet at every depth 0..levels+2; '
-        'commented dict values / elements / call arguments at depths 0..4 x widths 10, 30, 79 (both comment placements). '
+        'commented dict values / elements / call arguments at depths 0..4 x widths 10, 30, 79 (both comment placements); '
+        'calls whose sole positional argument is a list/tuple/dict/set/frozenset - native, subclass instance, commented, '
+        'inside another call, with a keyword or second argument beside it - at depths 0..6. '
         'Oracle on the implementation: for depth > height the text equals depth=None; otherwise the syntax tree of '
         'the output is walked in parallel with the tree of the unlimited output: below the cut everything identical, '
         'at nesting >= depth the placeholder of that node\'s own type ([...], (...), {...}, T(...)). The three '
